@@ -46,6 +46,20 @@ def ntopKnownNow : Bool :=
   && [kV6LE, kV6BE].all (fun k => argSwaps.contains (ntopArg k) || argIds.contains (ntopArg k))
 
 
+/-! ### the dict `inodes` shared by all the tables of a query (facts `allInodesInit`, `procInodesInit`, `inetLookup`,
+    `unixLookup`) -/
+
+def plainDictExprs : List String := ["{}", "dict()"]
+def defaultDictExprs : List String := ["defaultdict(list)", "collections.defaultdict(list)"]
+
+/-- the vocabulary of `_dict_uses` (harness/props/c11.py) -/
+def lookupOf (uses : List String) : Lookup :=
+  if uses == ["guarded-subscript"] then .guarded
+  else if uses == ["subscript"] then .subscript
+  else if uses == ["get"] then .get
+  else if uses == ["setdefault"] then .setdefault
+  else .unknown
+
 /-- configuration of the model as extracted from the current source -/
 def cfg : Cfg :=
   { littleEndian := Gen.C11.littleEndian
@@ -69,6 +83,12 @@ def cfg : Cfg :=
     v6SwapLE := argSwaps.contains (ntopArg kV6LE)
     v6SwapBE := argSwaps.contains (ntopArg kV6BE)
     ntopKnown := ntopKnownNow
+    allInodesDefault := defaultDictExprs.contains Gen.C11.allInodesInit
+    procInodesDefault := defaultDictExprs.contains Gen.C11.procInodesInit
+    inodesInitKnown := [Gen.C11.allInodesInit, Gen.C11.procInodesInit].all
+      (fun e => plainDictExprs.contains e || defaultDictExprs.contains e)
+    inetLookup := lookupOf Gen.C11.inetLookup
+    unixLookup := lookupOf Gen.C11.unixLookup
     inetN := Gen.C11.inetIdx.getD 0 0
     iLaddr := Gen.C11.inetIdx.getD 1 0
     iRaddr := Gen.C11.inetIdx.getD 2 0
